@@ -8,7 +8,7 @@ import time
 
 import z3
 
-FINITE_SORTS = ("Id", "Fut", "Val", "Key", "KPath", "Exc")
+FINITE_SORTS = ("Id", "Fut", "Val", "Key", "KPath", "Exc", "Slot", "Tag")
 SMALL = {"Val": 2, "Key": 1, "KPath": 2, "Exc": 1}  # scope of the value-domain sorts (independent of k)
 
 
@@ -16,7 +16,10 @@ def _to_enum_text(text, k):
     for s in FINITE_SORTS:
         decl = f"(declare-sort {s} 0)"
         if decl in text:
-            ctors = " ".join(f"({s}!e{i})" for i in range(SMALL.get(s, k)))
+            n = SMALL.get(s, k)
+            if s == "Key" and "key_twz_" in text:
+                n = 4  # the three reserved keyword names are distinct keys; one more for an ordinary keyword
+            ctors = " ".join(f"({s}!e{i})" for i in range(n))
             text = text.replace(decl, f"(declare-datatypes (({s} 0)) (({ctors})))")
     return text
 
@@ -30,7 +33,14 @@ def _expand(e, cache):
         n = e.num_vars()
         sorts = [e.var_sort(i) for i in range(n)]
         body = e.body()
-        if all(s.kind() == z3.Z3_DATATYPE_SORT and s.name() in FINITE_SORTS for s in sorts) and not e.is_lambda():
+        if e.is_lambda() and n == 1 and sorts[0].kind() == z3.Z3_DATATYPE_SORT and sorts[0].name() in FINITE_SORTS:
+            # a lambda over an enumerated sort is the explicit finite array (keeps the array theory complete)
+            dom = [sorts[0].constructor(j)() for j in range(sorts[0].num_constructors())]
+            vals = [_expand(z3.substitute_vars(body, c), cache) for c in dom]
+            r = z3.K(sorts[0], vals[0])
+            for c, val in zip(dom[1:], vals[1:]):
+                r = z3.Store(r, c, val)
+        elif all(s.kind() == z3.Z3_DATATYPE_SORT and s.name() in FINITE_SORTS for s in sorts) and not e.is_lambda():
             doms = [[s.constructor(j)() for j in range(s.num_constructors())] for s in sorts]
             insts = []
 
